@@ -202,12 +202,11 @@ class ProductErrorNode(ErrorNode):
             print(f"{indent}While parsing field '{field}':\n{indent}  ", end="", file=file)
             child.print_error(f"{indent}  ", file=file)
 
-        for field in self.missing:
-            if not isinstance(field, str):
-                field = '/'.join(field)
+        # (sets of names: list them in a fixed order, so the message doesn't depend on the interpreter's hash seed)
+        for field in sorted(field if isinstance(field, str) else '/'.join(field) for field in self.missing):
             print(f"{indent}  Missing required field '{field}'", file=file)
 
-        for field in self.extra:
+        for field in sorted(map(str, self.extra)):
             print(f"{indent}  Unexpected field '{field}'", file=file)
 
 
